@@ -7,6 +7,22 @@
 //! A case is one line of the driver's protocol, so the same text is fed to the Lean driver.
 mod common;
 mod g_wire;
+mod g_codes;
+mod g_name;
+mod g_rdata;
+mod g_catalog;
+mod g_zone;
+mod g_rrl;
+mod g_reader;
+mod g_tsig;
+mod g_writer;
+mod g_server;
+mod g_zonefile;
+mod g_include;
+mod g_pool;
+mod g_framing;
+mod g_reload;
+mod g_snapshot;
 
 use common::*;
 
@@ -21,6 +37,22 @@ fn main() {
         let mut rng = Rng::new(seed);
         match group {
             "wire" => g_wire::gen(&mut rng, thorough, &mut em),
+            "codes" => g_codes::gen(&mut rng, thorough, &mut em),
+            "name" => g_name::gen(&mut rng, thorough, &mut em),
+            "rdata" => g_rdata::gen(&mut rng, thorough, &mut em),
+            "catalog" => g_catalog::gen(&mut rng, thorough, &mut em),
+            "zone" => g_zone::gen(&mut rng, thorough, &mut em),
+            "rrl" => g_rrl::gen(&mut rng, thorough, &mut em),
+            "reader" => g_reader::gen(&mut rng, thorough, &mut em),
+            "tsig" => g_tsig::gen(&mut rng, thorough, &mut em),
+            "writer" => g_writer::gen(&mut rng, thorough, &mut em),
+            "server" => g_server::gen(&mut rng, thorough, &mut em),
+            "zonefile" => g_zonefile::gen(&mut rng, thorough, &mut em),
+            "include" => g_include::gen(&mut rng, thorough, &mut em),
+            "pool" => g_pool::gen(&mut rng, thorough, &mut em),
+            "framing" => g_framing::gen(&mut rng, thorough, &mut em),
+            "reload" => g_reload::gen(&mut rng, thorough, &mut em),
+            "snapshot" => g_snapshot::gen(&mut rng, thorough, &mut em),
             _ => {
                 eprintln!("unknown group {group}");
                 std::process::exit(2);
@@ -51,6 +83,54 @@ pub fn run_case(case: &str) -> String {
     let op = it.next().unwrap_or("");
     let args: Vec<&str> = it.collect();
     if let Some(r) = g_wire::run(op, &args) {
+        return r;
+    }
+    if let Some(r) = g_codes::run(op, &args) {
+        return r;
+    }
+    if let Some(r) = g_name::run(op, &args) {
+        return r;
+    }
+    if let Some(r) = g_rdata::run(op, &args) {
+        return r;
+    }
+    if let Some(r) = g_catalog::run(op, &args) {
+        return r;
+    }
+    if let Some(r) = g_zone::run(op, &args) {
+        return r;
+    }
+    if let Some(r) = g_rrl::run(op, &args) {
+        return r;
+    }
+    if let Some(r) = g_reader::run(op, &args) {
+        return r;
+    }
+    if let Some(r) = g_tsig::run(op, &args) {
+        return r;
+    }
+    if let Some(r) = g_writer::run(op, &args) {
+        return r;
+    }
+    if let Some(r) = g_server::run(op, &args) {
+        return r;
+    }
+    if let Some(r) = g_zonefile::run(op, &args) {
+        return r;
+    }
+    if let Some(r) = g_include::run(op, &args) {
+        return r;
+    }
+    if let Some(r) = g_pool::run(op, &args) {
+        return r;
+    }
+    if let Some(r) = g_framing::run(op, &args) {
+        return r;
+    }
+    if let Some(r) = g_reload::run(op, &args) {
+        return r;
+    }
+    if let Some(r) = g_snapshot::run(op, &args) {
         return r;
     }
     "bad-op".to_string()
